@@ -2,6 +2,7 @@ package sym
 
 import (
 	"go/types"
+	"strings"
 
 	"golang.org/x/tools/go/ssa"
 )
@@ -21,6 +22,7 @@ type syncState struct {
 }
 
 func (m *Machine) syncOf(p Ptr) *syncState {
+	p = m.elemPtr(p)
 	if p.p == nil {
 		m.goPanic("runtime error: invalid memory address or nil pointer dereference (sync object)")
 	}
@@ -39,10 +41,29 @@ func (m *Machine) syncPoint(c *frame, what string) *scheduler {
 	if m.mergeDepth > 0 {
 		panic(pathEnd{kind: endAbortMerge, msg: "synchronisation inside merged call"})
 	}
+	if m.initing > 0 {
+		// package initialisers run outside of the schedule
+		return nil
+	}
 	if m.sched != nil {
+		// bookkeeping atomics of the harness itself are not scheduling
+		// points (they still create happens-before edges)
+		if c != nil && isHarnessFunc(c.fn) && strings.HasPrefix(what, "atomic") {
+			return m.sched
+		}
 		m.sched.yield(c, what)
 	}
 	return m.sched
+}
+
+// elemPtr turns a symbolic element pointer into a concrete one by forking
+// over the feasible indexes.
+func (m *Machine) elemPtr(p Ptr) Ptr {
+	if p.p == nil && p.idx != nil {
+		i := m.concretize(p.idx, "element index of a synchronisation object")
+		return Ptr{obj: p.obj, p: &p.arr[i], arr: p.arr[i:]}
+	}
+	return p
 }
 
 func registerSync() {
@@ -135,7 +156,7 @@ func registerSync() {
 	atomicOp := func(kind string) intrinsic {
 		return func(m *Machine, c *frame, fn *ssa.Function, a []value) value {
 			s := m.syncPoint(c, "atomic "+kind)
-			p := a[0].(Ptr)
+			p := m.elemPtr(a[0].(Ptr))
 			if p.p == nil {
 				m.goPanic("runtime error: invalid memory address or nil pointer dereference (atomic)")
 			}
